@@ -20,7 +20,8 @@ RULE = (
     "repeat, roll), Tensor methods and operator dunders incl. reflected (python scalar / ndarray on the left) forms, and "
     "the non-differentiable ufuncs that Tensor.__array_ufunc__ forwards to the wrapped arrays (comparisons, logical_*, "
     "isnan/isfinite/isinf/signbit; floor_divide, remainder, mod, fmod, rint, sign, floor, ceil, trunc on constant tensors) "
-    "with the comparison and // operators. "
+    "with the comparison and // operators; `tensor ** c` additionally with scalar exponents -2 .. 3.5 in steps of 1/2 "
+    "(the values a short-cut is tempted to special-case) on every base dtype. "
     "Operands: tensors, plain ndarrays, python bool/int/float and NumPy scalars of bool_, int8, int32, int64, uint8, "
     "float16, float32, float64; 0-d, empty, broadcast families, F / negative-stride / sliced / 0-stride / relaxed "
     "layouts; keyword options the MyGrad signature has (axis, keepdims, ddof, where=, dtype=, out=ndarray). Oracle: "
